@@ -558,3 +558,129 @@ def translate_process_renames(path):
   body = t.block(fns[0].body, lambda: fail(fns[0], 'process_renames falls off its end'), None)
   return ('Definition gen_process_renames (k : collector) (renamer : gent -> option str) (formula : str)\n'
           '  (dollars : option (list Z)) (parsed : option expr) : pr_result :=\n  %s.\n' % body)
+
+
+# ---------------------------------------------------------------------------------------------
+# predicate_formula.parse_predicate_formula
+
+PF_PINNED_PROLOGUE = "if isinstance(formula, bytes):\n    formula = formula.decode('utf8')"
+PF_PINNED_HANDLER = ("_, _, exc_traceback = sys.exc_info()\n"
+                     "raise SyntaxError('%s on line %s col %s' % (e.args[0], e.lineno, e.offset)).with_traceback(exc_traceback)")
+PF_OPAQUE = """opaque calls of parse_predicate_formula and what they become:
+  get_dollar_replacer(formula).get_text()          the parameter `dollar_ok : bool` (false: SyntaxError); the text after
+                                                   it is what `parsed` and `tokens` are about
+  ast.parse(formula, mode='eval')                  the parameter `parsed : option expr` (None: SyntaxError)
+  TreeConverter().visit(tree)                      gen_visit None tree []  (GristGen.Predicate_gen)
+  tokenize.generate_tokens(io.StringIO(formula).readline)
+                                                   the parameter `tokens : list (bool * str)`: (type == COMMENT, string)
+  the except handler re-raises SyntaxError with line/column appended to the message (pinned text): the same error"""
+
+
+class ParseFormula(object):
+  def __init__(self):
+    self.env = {}
+
+  def expr(self, e):
+    """Expressions of the comment loop: part[0] == tokenize.COMMENT, part[1], s.startswith('#'), s[1:], s.strip(), [..]"""
+    if isinstance(e, ast.Name) and e.id in self.env:
+      return T(*self.env[e.id])
+    if isinstance(e, ast.Constant) and isinstance(e.value, str):
+      return T('(lit %s)' % cstr(e.value), 'str')
+    if isinstance(e, ast.Subscript) and isinstance(e.value, ast.Name) and self.env.get(e.value.id, (0, 0))[1] == 'token' and \
+       isinstance(e.slice, ast.Constant) and e.slice.value in (0, 1):
+      return T('(%s %s)' % ('fst' if e.slice.value == 0 else 'snd', self.env[e.value.id][0]),
+               'is_comment' if e.slice.value == 0 else 'str')
+    if isinstance(e, ast.Subscript) and isinstance(e.slice, ast.Slice) and e.slice.upper is None and e.slice.step is None and \
+       isinstance(e.slice.lower, ast.Constant) and isinstance(e.slice.lower.value, int) and e.slice.lower.value >= 0:
+      x = self.expr(e.value)
+      if x.ty == 'str':
+        return T('(skipn %d %s)' % (e.slice.lower.value, x.term), 'str')
+    if isinstance(e, ast.Compare) and len(e.ops) == 1 and isinstance(e.ops[0], ast.Eq) and \
+       ast.unparse(e.comparators[0]) == 'tokenize.COMMENT':
+      x = self.expr(e.left)
+      if x.ty == 'is_comment':
+        return T(x.term, 'bool')
+    if isinstance(e, ast.BoolOp) and isinstance(e.op, ast.And):
+      vals = [self.expr(v) for v in e.values]
+      if all(v.ty == 'bool' for v in vals):
+        return T('(' + ' && '.join(v.term for v in vals) + ')', 'bool')
+    if isinstance(e, ast.Call) and isinstance(e.func, ast.Attribute) and not e.keywords:
+      x = self.expr(e.func.value)
+      if x.ty == 'str' and e.func.attr == 'strip' and not e.args:
+        return T('(py_strip %s)' % x.term, 'str')
+      if x.ty == 'str' and e.func.attr == 'startswith' and len(e.args) == 1 and isinstance(e.args[0], ast.Constant) and \
+         isinstance(e.args[0].value, str) and len(e.args[0].value) == 1:
+        return T('(match %s with c_ :: _ => c_ =? %d | [] => false end)' % (x.term, ord(e.args[0].value)), 'bool')
+    if isinstance(e, ast.List):
+      items = []
+      for el in e.elts:
+        x = self.expr(el)
+        if x.ty == 'pv':
+          items.append(x.term)
+        elif x.ty == 'str':
+          items.append('(PLeaf (CStr %s))' % x.term)
+        else:
+          fail(el, 'list element')
+      return T('(PList [%s])' % '; '.join(items), 'pv')
+    fail(e, 'expression')
+
+  def body(self, ss, raise_):
+    """The statements of the try block; returns a term of type gres pyval."""
+    if not ss:
+      raise Untranslatable('parse_predicate_formula falls off the end of its try block')
+    s, rest = ss[0], ss[1:]
+    src = ast.unparse(s)
+    if src == 'formula = get_dollar_replacer(formula).get_text()':
+      return '(if dollar_ok then %s else %s)' % (self.body(rest, raise_), raise_('ErrParser'))
+    if src == "tree = ast.parse(formula, mode='eval')":
+      self.env['tree'] = ('tree', 'node')
+      return '(match parsed with Some tree => %s | None => %s end)' % (self.body(rest, raise_), raise_('ErrParser'))
+    if isinstance(s, ast.Assign) and len(s.targets) == 1 and isinstance(s.targets[0], ast.Name) and \
+       ast.unparse(s.value) == 'TreeConverter().visit(tree)' and 'tree' in self.env:
+      name = s.targets[0].id
+      self.env[name] = (name, 'pv')
+      return ('(match gen_visit None tree [] with GOk (%s, _) => %s | GFail (GErr e_) => %s '
+              '| GFail (GInternal w_) => GFail (GInternal w_) end)' % (name, self.body(rest, raise_), raise_('e_')))
+    if isinstance(s, ast.For):
+      # for part in tokens: if <cond>: <one assignment>; break      (the first matching token, if any)
+      if ast.unparse(s.iter) != 'tokenize.generate_tokens(io.StringIO(formula).readline)' or s.orelse or \
+         not isinstance(s.target, ast.Name) or len(s.body) != 1 or not isinstance(s.body[0], ast.If) or s.body[0].orelse:
+        fail(s, 'token loop')
+      iff = s.body[0]
+      if len(iff.body) != 2 or not isinstance(iff.body[1], ast.Break) or not isinstance(iff.body[0], ast.Assign) or \
+         len(iff.body[0].targets) != 1 or not isinstance(iff.body[0].targets[0], ast.Name):
+        fail(s, 'token loop body')
+      part = s.target.id
+      saved = dict(self.env)
+      self.env[part] = (part, 'token')
+      cond = self.expr(iff.test)
+      val = self.expr(iff.body[0].value)
+      self.env = saved
+      name = iff.body[0].targets[0].id
+      if cond.ty != 'bool' or val.ty != 'pv' or self.env.get(name, (0, 0))[1] != 'pv':
+        fail(s, 'token loop types')
+      return '(let %s := match find (fun %s => %s) tokens with Some %s => %s | None => %s end in %s)' % (
+        name, part, cond.term, part, val.term, name, self.body(rest, raise_))
+    if isinstance(s, ast.Return) and isinstance(s.value, ast.Name) and self.env.get(s.value.id, (0, 0))[1] == 'pv':
+      return '(GOk %s)' % s.value.id
+    fail(s, 'statement')
+
+
+def translate_parse_formula(path):
+  with open(path) as f:
+    mod = ast.parse(f.read())
+  fns = [s for s in mod.body if isinstance(s, ast.FunctionDef) and s.name == 'parse_predicate_formula']
+  if len(fns) != 1 or [a.arg for a in fns[0].args.args] != ['formula'] or fns[0].args.defaults:
+    raise Untranslatable('parse_predicate_formula(formula) not found')
+  ss = list(fns[0].body)
+  if ss and isinstance(ss[0], ast.Expr) and isinstance(ss[0].value, ast.Constant):
+    ss = ss[1:]
+  if len(ss) != 2 or ast.unparse(ss[0]) != PF_PINNED_PROLOGUE or not isinstance(ss[1], ast.Try):
+    raise Untranslatable('parse_predicate_formula: expected the bytes prologue and one try statement')
+  t = ss[1]
+  if len(t.handlers) != 1 or t.orelse or t.finalbody or ast.unparse(t.handlers[0].type) != 'SyntaxError' or \
+     t.handlers[0].name != 'e' or '\n'.join(ast.unparse(x) for x in t.handlers[0].body) != PF_PINNED_HANDLER:
+    raise Untranslatable('parse_predicate_formula: the except handler is pinned to the re-raise with line and column')
+  body = ParseFormula().body(t.body, lambda err: '(GFail (GErr %s))' % err)
+  return ('Definition gen_parse_predicate_formula (dollar_ok : bool) (parsed : option expr) (tokens : list (bool * str))\n'
+          '  : gres pyval :=\n  %s.\n' % body)
